@@ -169,6 +169,23 @@ example : trivialLb S5 K3 = 1 ∧ findLb (wrapMul 8) (wrapMul 8) S5 K3 = 2 := by
 example : trivialLb P3 T5 = 1 ∧ findLb (wrapMul 8) (wrapMul 8) P3 T5 = 2 ∧
     confirmRow 2 (sub T5 (largestBoundedCurvatureIdx (wrapMul 8) T5 3 2)) P3 3 = true := by decide
 
+/-! ### the unrepaired sort-key product (regression witness) -/
+
+/-- path on 14 vertices -/
+def P14 : Mat := (List.range 14).map fun i => (List.range 14).map fun j => (i - j) + (j - i)
+
+omit [NeZero n] [NeZero m] in
+/-- **the old code**: `len(K) * diam_X` was `Python int * np.int8`.  Under NumPy 2 it is an
+    `OverflowError` for 128 or more rows (no bounds are returned at all for graphs with ≥ 128 vertices
+    and diameter ≤ 127), and below that it wraps modulo 256: on the 14-vertex path (`14·13 = 182 ↦ −74`)
+    the wrapped keys keep 4 rows at `d = 2` where the exact keys keep 7 — still a principal submatrix
+    with entries ≥ d (`curvature_is_principal`), but a weaker bound. -/
+theorem old_key_product_counterexample :
+    keyMulOld 128 2 = .error .overflow ∧ keyMulOld 14 13 = .ok (-74) ∧
+      (largestBoundedCurvatureIdx (wrapMul 8) P14 13 2).length = 4 ∧
+      (largestBoundedCurvatureIdx (wrapMul 64) P14 13 2).length = 7 := by
+  decide
+
 /-! ### upper bound -/
 
 omit [NeZero m] in
